@@ -190,6 +190,18 @@ Theorem C14_statements_independent : forall (s1 s2 : string) (st : sstate) (b1 b
 Proof. exact statements_independent. Qed.
 Print Assumptions C14_statements_independent.
 
+(* reordering two complete blocks of statements: both orders parse the same statements alone and merge the per-statement
+   symbol lists in the respective order.  That the two merges contain the same symbols in another order is NOT proved
+   (it needs commutativity of Symbol.combine across the occurrences of a name); the metamorphic oracle checks it *)
+Theorem C14_permutation_partial : forall (s1 s2 : string) (st1 st2 : sstate) (b1 b2 : list (list symbol)),
+  s1 <> "" -> ends_sep s1 = false -> final_state s0 (model_lines s1) = Some st1 -> clean st1 = true ->
+  s2 <> "" -> ends_sep s2 = false -> final_state s0 (model_lines s2) = Some st2 -> clean st2 = true ->
+  map_p parse_equation_M (fst (split_M s1)) = POk b1 -> map_p parse_equation_M (fst (split_M s2)) = POk b2 ->
+  parse_model_nocheck (s1 ++ nl_s ++ s2) = of_outcome (merge_symbols (b1 ++ b2)%list) /\
+  parse_model_nocheck (s2 ++ nl_s ++ s1) = of_outcome (merge_symbols (b2 ++ b1)%list).
+Proof. exact swap_blocks. Qed.
+Print Assumptions C14_permutation_partial.
+
 (* ---- the normal form is a fixed point of the parser (whole statements) ---- *)
 (* q ranges over ALL normalised equations given as token lists; dq_ok q: one assigned term NAME[t+k] and blanks on the left,
    the right-hand side re-lexes token by token (names are identifiers no keyword prefixes, functions are followed by "(",
